@@ -311,6 +311,21 @@ def c04(res, scenario) -> list[Violation]:
                 out.append(Violation("c04:running-iff-before",
                                      f"system was {before} before save_state (event {i0}) and is "
                                      f"{phase} after it (event {i})", case))
+    # one state, one view of the data: what a trainer sees of its data user while the state is written is what the
+    # state's buffer file holds (the save of the data user hands over what the collector still held)
+    i_begin = None
+    for i, (th, kind, obj, val) in enumerate(ev):
+        if kind == "save_begin":
+            i_begin = i
+        elif kind == "save_end" and i_begin is not None:
+            seg = ev[i_begin:i]
+            saved = [e[3] for e in seg if e[1] == "data" and e[2] == "saved_len"]
+            seen = [e[3] for e in seg if e[1] == "data" and e[2] == "trainer_sees"]
+            if saved and any(x != saved[-1] for x in seen):
+                out.append(Violation("c04:trainer-view-differs-from-saved-buffer",
+                                     f"save ending at event {i}: the buffer file holds {saved[-1]} samples, the trainers "
+                                     f"saw {seen} while their state was written", case))
+            i_begin = None
     # snapshot content
     for sv in res.saves:
         idx = sv["event_index"]
